@@ -32,9 +32,11 @@ def run(tier):
                     pass
         for cls, body in all_classes_of(t['tree']):
             arrays = [i['attrs']['name'] for i in flat_body(body) if i['tag'] == 'array' and str(i['attrs'].get('optional', '')).lower() != 'true']
-            for k in range(2 if quick else 4):
+            for k in range(3 if quick else 5):
                 try:
-                    v = vg.obj(cls, body)
+                    # the last one writes as little as the declaration allows: what such an instance puts on the wire (a <dummy>, say) must
+                    # not depend on what the writer holds already
+                    v = vg.obj(cls, body) if k else vg.obj_minimal(cls, body)
                 except Exception as ex:
                     C.harness_failure('value-generation', f"{t['name']} {cls}: {type(ex).__name__}: {ex}")
                     continue
